@@ -59,6 +59,10 @@ fn main() {
                 }
             }
         }
+        Some("probe-names-concurrent") => {
+            // the first by-name lookups of this process, made by several threads at the same moment (C12 `fresh_concurrent`)
+            props::c12::probe_names_concurrent(args.get(2).and_then(|x| x.parse().ok()).unwrap_or(8));
+        }
         Some("probe-registry") => {
             // the first thing this process does with the registry (C15 `fresh_process`): one line per id given on the command line
             props::c15::probe_registry(&args[2..]);
